@@ -75,20 +75,21 @@ CHECKS["C15"] = dict(
     note="partial: process-wide at-exit report of low-level allocators not covered yet.",
     technique="Lean 4 proof (induction over histories) + correspondence")
 CHECKS["C01"] = dict(
-    text="Lean theorems: for memory_pool over BOTH intrusive free lists - the unordered list (release builds) and the address-ordered xor list "
-         "(array_pool always, node_pool when double-free checking is on) - after ANY history of node/array allocations, try_ variants and "
+    text="Lean theorems: for memory_pool over ALL THREE free lists - the unordered list (release builds), the address-ordered xor list "
+         "(array_pool always, node_pool when double-free checking is on) and the chunked small node list - after ANY history of node/array allocations, try_ variants and "
          "releases (any environment incl. upstream failures, any node size, any configuration) live ranges are pairwise disjoint, lie inside "
          "the usable part of an owned block, and free cells (the only memory the allocator writes) are disjoint from them (frame); the ordered "
          "list stays sorted with an adjacent cursor pair, find_pos finds every pointer the pool handed out from every reachable cursor state, "
-         "valid releases never fail; invariant established by the constructors. memory_stack: placement invariant for all histories with nested "
-         "marker scopes. Iteration regions: C07 theorems. Other allocator kinds (small-node pools, collections): line-by-line correspondence of "
+         "valid releases never fail; the small list keeps its chunk ring sorted with valid cursors, its two-cursor chunk search finds the "
+         "chunk of every live node and the pointer checks never fire for one; invariant established by the constructors. memory_stack: placement invariant for all histories with nested "
+         "marker scopes. Iteration regions: C07 theorems. memory_pool_collection: line-by-line correspondence of "
          "every returned address plus overlap / inside-owned / content-pattern / poison-after-release oracles on the real code in rel/rwdi/dbg.",
-    note="partial: proof covers memory_pool over the unordered and the ordered list, memory_stack over growing/fixed sources, iteration regions; "
-         "small-node pools and collections at correspondence+oracle level. Hypothesis n*node_size < 2^64 is necessary (machine-checked "
+    note="partial: proof covers memory_pool over all three list types, memory_stack over growing/fixed sources, iteration regions; "
+         "collections at correspondence+oracle level. Hypothesis n*node_size < 2^64 is necessary (machine-checked "
          "counterexample, finding D21). Environment hypotheses: blocks well formed and pairwise disjoint, pool object outside its blocks.",
     technique="Lean 4 proof (partition invariant over cells, order-independent; ordered-list structural invariant; induction over histories) + correspondence/oracles")
 CHECKS["C04"] = dict(
-    text="Lean theorems: (1) memory_pool over the unordered AND the ordered free list, for ALL histories of node/array allocations, try_ "
+    text="Lean theorems: (1) memory_pool over the unordered, the ordered AND the small node free list, for ALL histories of node/array allocations, try_ "
          "variants and releases in any order, any configuration and environment: exact accounting - capacity counter + cells of live "
          "allocations = number of cells of the blocks in use, at every point; hence after everything has been released the capacity is at "
          "least the initial capacity plus everything that was live, and a cycle that did not grow the pool restores the counter exactly "
@@ -98,7 +99,7 @@ CHECKS["C04"] = dict(
          "block source while the matching list holds a node; m node allocations with >= m free nodes never grow. Tied by state-dump "
          "correspondence of all three lists in rel and dbg.",
     note="multi-array cycles on the unordered list may grow although no cell is lost (fragmented list order; D15, documented limitation; "
-         "recorded finding). Small-node pools and collections: per-list capacity theorems + correspondence, no history theorem yet.",
+         "recorded finding). Collections: per-list capacity theorems + correspondence, no history theorem yet.",
     technique="Lean 4 proof (exact-accounting invariant by induction over histories, list invariants, find_pos correctness) + correspondence")
 CHECKS["C18"] = dict(
     text="Lean theorems over the translator-generated min_block_size formulas and the list insert models: for every node size and count "
